@@ -289,7 +289,9 @@ ReadField(r, bit, data) ==
     IF f.proc = "ICC"
     THEN LET w == IccWalk(body)
              d1 == Put(Put(r.d, DE(bit), V("b", body)), K("ICC_DATA", 0, <<>>), V("s", Hexlify(body)))
-         IN  [st |-> Worse(r.st, pst), ptr |-> nptr, d |-> PutAll(d1, w.es),
+         \* ICC data that is not a whole TLV sequence: don't-care for acceptance (C10 lists bad ICC content as a
+         \* fault that may be refused); if accepted the TAG entries are not judged
+         IN  [st |-> Worse(Worse(r.st, pst), IF w.strict THEN "strict" ELSE "lenient"), ptr |-> nptr, d |-> PutAll(d1, w.es),
               wild |-> IF w.strict THEN r.wild ELSE r.wild \cup {"TAG"}]
     ELSE IF ~DecodeOk(body) THEN bad
     ELSE LET text0 == DecodeText(body)
